@@ -1121,7 +1121,7 @@ def run(ctx):
         sweep = dtype_sweep()
         run_cases(ctx, sweep, pool)
         ctx.extra['dtype_sweep_cases'] = len(sweep)
-        n = ctx.scale(4000, 60000)
+        n = ctx.scale(7000, 60000)
         if ctx.searching:
             n = ctx.scale(20000, 60000)
         rng = ctx.rng
